@@ -220,6 +220,15 @@ class InlineTranslator:
                 != replace_cond.atom.symbol.arguments[hv_pos]  # pylint: disable=undefined-loop-variable
             ):
                 return atom
+            # the head of the helper has to identify the instance of its rule,
+            # a global variable of its body that is projected away would multiply the unfolded elements
+            rest_body = [
+                blit
+                for blit in rule.body
+                if not (blit.ast_type == ASTType.Literal and blit.atom.ast_type == ASTType.BodyAggregate)
+            ]
+            if not global_vars_inside_body(rest_body).issubset(hatom.symbol.arguments):
+                return atom
             # the groups of the helper have to stay apart: its other arguments must be part of the tuple
             # or be fixed from outside of the aggregate
             visible: set[AST] = set(outer_vars) if outer_vars is not None else set()
